@@ -20,6 +20,12 @@
 #include "types_base.c"
 #include "sig_builder.h"
 #include "c04_builder.h"
+/* secondary witness points are only compiled in the thorough tier (-DWITNESS_ALL): every witness costs a solver call plus a full trace */
+#ifdef WITNESS_ALL
+#define WITNESS_EXTRA(msg) WITNESS_POINT(msg)
+#else
+#define WITNESS_EXTRA(msg) ((void)0)
+#endif
 
 #define IS(res_, r_, rc_, ec_) ((res_) == KSI_OK && (r_).resultCode == (rc_) && (r_).errorCode == (ec_))
 #define IS_ERR(res_, r_) ((res_) != KSI_OK && (r_).resultCode == KSI_VER_RES_NA)
@@ -65,7 +71,7 @@ void harness(void) {
 		CHECK(allowed != 0 ? IS(res, r, KSI_VER_RES_OK, KSI_VER_ERR_NONE) : (res == KSI_OK && r.resultCode == KSI_VER_RES_NA),
 				"C04.Huser extending permitted rule (publications file policy) is OK exactly when extending is allowed, NA otherwise");
 		if (allowed == 0) WITNESS_POINT("extending not allowed");
-		if (allowed < 0) WITNESS_POINT("extending allowed by a negative flag value");
+		if (allowed < 0) WITNESS_EXTRA("extending allowed by a negative flag value");
 	}
 
 #if C04_USERPUB != 0
@@ -75,10 +81,10 @@ void harness(void) {
 #if SB_HAS_PUB && C04_USERPUB != 2
 	if (SB.pub.time == C4.up.time) {
 		CHECK(IS(res, r, KSI_VER_RES_OK, KSI_VER_ERR_NONE), "C04.Huser equal publication times are accepted by the time rule");
-		WITNESS_POINT("user publication time equals signature publication time");
+		WITNESS_EXTRA("user publication time equals signature publication time");
 	} else {
 		CHECK(res == KSI_OK && r.resultCode == KSI_VER_RES_NA, "C04.Huser different publication times are inconclusive (NA), never FAIL");
-		if (SB.pub.time + 1 == C4.up.time) WITNESS_POINT("user publication one second later");
+		if (SB.pub.time + 1 == C4.up.time) WITNESS_EXTRA("user publication one second later");
 	}
 #else
 	CHECK(IS_ERR(res, r), "C04.Huser time rule without signature publication or without user publication time: error status and NA");
@@ -97,13 +103,13 @@ void harness(void) {
 	if (sb_hash_eq(&SB.pub.imp, &C4.up.imp)) {
 		CHECK(IS(res, r, KSI_VER_RES_OK, KSI_VER_ERR_NONE), "C04.Huser equal publication imprints are accepted by the hash rule");
 #if SB_PUBALG == C04_USERPUB_ALG
-		WITNESS_POINT("user publication hash equals signature publication hash");
+		WITNESS_EXTRA("user publication hash equals signature publication hash");
 #endif
 	} else {
 		CHECK(IS(res, r, KSI_VER_RES_FAIL, KSI_VER_ERR_PUB_4), "C04.Huser a different publication imprint yields FAIL PUB-04");
 #if SB_PUBALG == C04_USERPUB_ALG && SB_PUBALG < 0
 		if (SB.pub.imp.imp[0] == C4.up.imp.imp[0] && SB.pub.imp.imp[1] == C4.up.imp.imp[1]) WITNESS_POINT("imprints differ in a later digest byte");
-		if (SB.pub.imp.imp[0] != C4.up.imp.imp[0]) WITNESS_POINT("imprints differ in the algorithm id");
+		if (SB.pub.imp.imp[0] != C4.up.imp.imp[0]) WITNESS_EXTRA("imprints differ in the algorithm id");
 #else
 		WITNESS_POINT("imprints of different length classes");
 #endif
@@ -126,7 +132,7 @@ void harness(void) {
 		u64 signing = SB_HAS_CAL ? SB.cal.aggrTime : SB.ch[0].aggrTime;
 		if (signing < C4.up.time) {
 			CHECK(IS(res, r, KSI_VER_RES_OK, KSI_VER_ERR_NONE), "C04.Huser signature created before the user publication: OK");
-			if (signing + 1 == C4.up.time) WITNESS_POINT("created one second before the publication");
+			if (signing + 1 == C4.up.time) WITNESS_EXTRA("created one second before the publication");
 		} else {
 			CHECK(res == KSI_OK && r.resultCode == KSI_VER_RES_NA, "C04.Huser signature not created before the user publication: NA");
 			if (signing == C4.up.time) WITNESS_POINT("created exactly at the publication time: NA");
